@@ -472,6 +472,17 @@ def compare(c, io, drv):
                 s = drv["spec_parcor"]
                 if not (p["raised"] == s["raised"] and close_list(decl(p["ks"]), decl(s["ks"]), tol)):
                     out.append(("spec", "parcor yields %r raised=%s; spec %r" % (p["ks"], p["raised"], s)))
+                if not p["raised"]:
+                    # rebuilding (Props.C11.call_roundtrip): lead * step-up of the yields (read backwards) is the
+                    # numerator after the constructor's shift, zeros compacted - non-monic, Laurent-shifted input
+                    f = decl(drv["causal_num"])
+                    while f and f[-1] == 0:
+                        f.pop()
+                    reb = [f[0] * x for x in _step_up([F(k) for k in decl(p["ks"])][::-1], F(1))] if f else []
+                    io["rebuilt"] = True
+                    if len(reb) != len(f) or not close_list(reb, f, tol):
+                        out.append(("spec", "lead * step-up of the yielded coefficients %r does not rebuild the shifted "
+                                            "numerator %r" % (encl(reb)[:8], encl(f)[:8])))
         if isinstance(io["stable"], dict):
             out.append(("model", "parcor_stable raised %r" % (io["stable"],)))
             out.append(("spec", "parcor_stable raised %r" % (io["stable"],)))
@@ -529,6 +540,9 @@ def tally(eng, c, io):
         p = io["parcor"]
         eng.count("call_outcome", "parcor:" + (p["err"] if "err" in p else "ParCorError" if p["raised"] else "completed"))
         eng.count("call_stable", io["stable"] if not isinstance(io["stable"], dict) else "err")
+        eng.count("call_rebuilt_checked", "%s lead%s1 shift%s0" % (
+            bool(io.get("rebuilt")), "==" if decl(c["num"])[:1] == [F(1)] else "!=",
+            "==" if c["num_lo"] == c["den_lo"] == 0 else "!="))
 
 
 # ----------------------------------------------------------------------------------------------
@@ -620,6 +634,18 @@ def extra_checks(eng):
                "1 - k ** 2 == 0.0 for a float k next to 1")
     except Exception as ex:
         yield ("float-twin-pow-is-cpython-pow", False, "driver fpow failed: %r" % (ex,))
+    # the decoder / encoder of bit patterns: identity on every finite pattern and the infinities, -0.0 -> +0.0
+    try:
+        pats = [bits(x) for x in xs[:600]] + [0, 1 << 63, 1, (1 << 63) | 1, 0x7ff0000000000000, 0xfff0000000000000,
+                                              0x000fffffffffffff, 0x0010000000000000, 0x7fefffffffffffff, bits(1.0), bits(-1.0)]
+        r = eng.driver.batch([{"id": "C11", "entry": "fbits", "bits": pats}])[0]
+        r = r.get("ok", r)
+        want = [0 if b == (1 << 63) else b for b in pats]
+        wfin = [abs(unbits(b)) != float("inf") for b in pats]
+        yield ("float-bits-roundtrip", r["bits"] == want and r["finite"] == wfin,
+               "F64.ofBits / F64.bits / F64.isFinite of the driver are not the identity / isfinite on the table")
+    except Exception as ex:
+        yield ("float-bits-roundtrip", False, "driver fbits failed: %r" % (ex,))
     # the summation function of the Levinson twin is the builtin sum of THIS interpreter on floats
     try:
         ls = [[rng.uniform(-1, 1) * 10.0 ** rng.randint(-3, 3) for _ in range(rng.randint(1, 30))] for _ in range(1500)]
